@@ -131,6 +131,9 @@ def structured_junk(rng) -> tuple[bytes, str]:
         fr = bytearray(gen(rng).frame)
         i = rng.randrange(3)
         fr[i] = rng.choice((0x00, 0xE6, 0xE7, 0x03, 0xFF, rng.randrange(256)))
+        if rng.random() < 0.3:
+            # LLC octets that read like the header of an empty list of another meter (01 00 .. / 02 00 .. / 02 01 ..)
+            fr[0:3] = rng.choice((b"\x01\x00", b"\x02\x00", b"\x02\x01", b"\x01\x01")) + bytes((rng.choice((0x00, 0x0F, 0x09, rng.randrange(256))),))
         return bytes(fr), kind
     if kind == "repeated_elements":
         # an otherwise well-formed list in which one OBIS element occurs 2..6 times (same code; same or different registers)
@@ -300,6 +303,11 @@ def canonical_inputs() -> list[tuple[bytes, str]]:
                     b[i] = tag
                     b[i + 1 : i + 5] = pat
                     out.append((bytes(b), "canonical"))
+    # hex-coded text (equipment ids, the DSMR text message) of special characters: blanks, NULs, line ends, one character, nothing
+    for code in ("0-0:96.13.0", "0-0:96.13.1", "0-0:96.1.1", "0-1:96.1.0", "1-3:0.2.8"):
+        for hx in ("", "20", "2020", "20202020202020", "00", "0000", "0A", "0D0A", "7F", "FF", "2", "202", "4B38", "2020x", "50", "42"):
+            out.append((f"{code}({hx})\r\n".encode(), "canonical"))
+            out.append((f"1-3:0.2.8(50)\r\n{code}({hx})\r\n".encode(), "canonical"))
     for depth in (10, 20, 30, 40, 60):
         body = b"\x0f\x00"
         for _ in range(depth):
